@@ -49,6 +49,17 @@ CLAIMS["C19"] = dict(engine="pool", technique="Lean 4 proofs (induction over all
     text="Proved for every finite sequence of get/put/forget/alloc/reset/drop steps by any number of guards: owned arenas are pairwise distinct and disjoint from the idle stack (exclusivity); an arena is created only on an empty idle stack, so created ≤ peak live guards and no arena is lost; arena contents change only through the current owner and only grow between resets (survive hand-over); reset/reset_to_start/drop hit every arena exactly once. Partial (stated in the evidence): atomicity of the Mutex critical sections and cross-thread visibility are runtime properties (trusted); schedules of real threads are sampled; the arena is abstracted to a tag list.",
     ref="§7 C19", note=NOTE_MODEL + " Hook: --cfg bump_scope_verif adds a ticket counter inside BumpPool::lock (add-only).")
 
+COLL_TECH = ("Lean 4 proofs over a hand-written slot-level model of the slice/vector algorithms (same read/write cursors and drop guards as the Rust code, "
+             "user callbacks as oracle lists quantified universally); tie = correspondence harness (real BumpBox<[T]>/FixedBumpVec/BumpVec/MutBumpVec(Rev) vs model) "
+             "+ std::vec::Vec and an exactly-once drop ledger as direct oracles")
+def coll_claim(text, ref):
+    return dict(engine="coll", technique=COLL_TECH, text=text, ref=ref, note=NOTE_MODEL)
+CLAIMS.update({
+ "C06": coll_claim("Proved for every well-formed vector, every argument and every callback oracle (so a panic at every possible invocation, incl. panicking Drop as a 'bomb' set): retain, dedup_by, truncate, clear, pop, remove, swap_remove, push, insert, extend_from_slice_clone, resize, drain (any pull script, any way of finishing), into_iter, extract_if, map_in_place and append drop no value twice, read no moved-out slot, and — unless the panic came from a Drop — account for every value exactly once (remaining ⊎ dropped ⊎ escaped = initial ⊎ inserted) leaving a well-formed vector; dropping the owner drops each remaining value once. Partial: splice, partition, into_flattened, BumpVec::map and the MutBumpVecRev mirrors are covered by the harness oracles only; zero-sized elements by the counting oracle only. Tie: exact drop-order correspondence + exactly-once ledger on the real types with a panic injected at every callback index.", "§7 C06"),
+ "C08": coll_claim("Proved refinement to the List specification (abs = the first len slots): retain, dedup_by, truncate, clear, pop, remove, swap_remove, push, insert, extend_from_slice_clone, resize, drain, into_iter, extract_if, map_in_place, append return the same values and leave the same elements in the same order as the corresponding List function, reject exactly the out-of-range arguments; reserve keeps len ≤ cap, honours its promise, is the identity while the promise suffices, fixed vectors never grow and fail when full. Partial: remaining operations (splice, into_flattened, map, shrink*, conversions, Rev mirrors) are compared with std::vec::Vec / VecDeque by the harness only. Tie: three-way differential (implementation vs model vs std) on all five vector types, sized and zero-sized elements, both directions.", "§7 C08"),
+ "C16": coll_claim("Proved for every length, capacity and range: split_off's parts hold exactly the original elements in the documented order, their capacities add up and their buffers are disjoint and tile the original buffer; split_at / split_first / split_last partition likewise; merge of adjacent parts is the inverse of split_at, is defined iff the parts are adjacent in order, and rejects swapped parts; out-of-range arguments are rejected. Partial: partition, split_at_spare, into_flattened and string split_off (see C09) are oracle-only here; independence of the parts afterwards is C01/C02 on the arena model plus the fill-to-capacity sibling re-read oracle. Tie: exhaustive (len ≤ 9, cap ≤ 12, start ≤ end ≤ len) enumeration each run against the real types with address/capacity-exact correspondence.", "§7 C16"),
+})
+
 NOT_YET = "check under construction in this round; will be claimed as soon as its theorem + correspondence + oracle run end-to-end (DESIGN.md §13)"
 
 def main():
@@ -84,6 +95,8 @@ def main():
              "kind_free_text": "hand-written byte-level string model + theorems + correspondence harness + std::String oracle"},
             {"name": "pool", "path": "harness/src/bin/pool.rs + lean/BumpProof/Pool + lean/Driver/PoolD.lean + checks/engines/pool.py", "serves_properties": ["C19"],
              "kind_free_text": "pool state machine + theorems + ticket-linearised replay of real threads + oracles"},
+            {"name": "coll", "path": "harness/src/bin/coll.rs (+ src/coll_inc) + lean/BumpProof/Coll + lean/Driver/CollD.lean + checks/engines/coll.py", "serves_properties": ["C06", "C08", "C16"],
+             "kind_free_text": "slot-level model of the vector algorithms with callback oracles + theorems + correspondence harness + std::Vec / drop-ledger oracles"},
             {"name": "purefn", "path": "harness/src/bin/purefn.rs + lean/Driver/Pure.lean + translator/rs2lean.py", "serves_properties": ["C11", "C12"],
              "kind_free_text": "translator (Rust subset → Lean) + translation validation + differential oracle against wide-integer specs"},
         ],
